@@ -175,7 +175,14 @@ def build_forecaster(spec):
     if k == "online_ensemble":
         from sktime.forecasting.online_learning import OnlineEnsembleForecaster
 
-        return OnlineEnsembleForecaster([("m%d" % i, build_forecaster(m)) for i, m in enumerate(spec["members"])])
+        alg = None
+        if spec.get("algorithm"):
+            from sklearn.metrics import mean_squared_error
+
+            from sktime.forecasting.online_learning import NNLSEnsemble, NormalHedgeEnsemble
+
+            alg = (NNLSEnsemble if spec["algorithm"] == "nnls" else NormalHedgeEnsemble)(n_estimators=len(spec["members"]), loss_func=mean_squared_error)
+        return OnlineEnsembleForecaster([("m%d" % i, build_forecaster(m)) for i, m in enumerate(spec["members"])], ensemble_algorithm=alg)
     if k == "pipeline":
         from sktime.forecasting.compose import TransformedTargetForecaster
 
